@@ -177,6 +177,26 @@ func genCase(r *rand.Rand, maxOps int) Case {
 	n := 1 + r.Intn(maxOps)
 	shard := cs.Shard
 	saved := [][2]string{}
+	if cs.Wf && r.Intn(4) == 0 {
+		// the startLeading window: the store is handed out BEFORE it is loaded, so saves (mostly of conditions the
+		// previous holder persisted, with other content) reach it first; then Load
+		own, _ := ownUpstreams(shard, cs.Count)
+		for i, k := 0, 1+r.Intn(2); i < k; i++ {
+			var c *CondJ
+			if len(cs.Init) > 0 && r.Intn(4) != 0 {
+				p := rig.Pick(r, cs.Init)
+				c = genCond(r, rig.UnHex(p.Up), rig.UnHex(p.Name))
+			} else if len(own) > 0 {
+				up := rig.Pick(r, own)
+				c = genCond(r, up, up+"."+rig.Pick(r, suffixes))
+			}
+			if c != nil {
+				cs.Ops = append(cs.Ops, OpJ{Op: "save", Key: c.Up, Cond: c})
+				saved = append(saved, [2]string{c.Up, c.Name})
+			}
+		}
+		cs.Ops = append(cs.Ops, OpJ{Op: "load"})
+	}
 	for i := 0; i < n; i++ {
 		op := genOp(r, &cs, shard, cs.Wf)
 		if op.Op == "restart" {
